@@ -508,7 +508,7 @@ func genDim(r *rand.Rand) Input {
 	return Input{Dim: d}
 }
 
-var appPool = []string{"app", "ap", "app2", "b", "a.b", "zzz", "app:x"}
+var appPool = []string{"app", "ap", "app2", "b", "a.b", "zzz", "app:x", "", ""}
 var tagKeys = []string{"a", "b", "c", "env"}
 var tagVals = []string{"1", "2", "x", "x:y", "http://x/y.z", "a.b", "v/1", "1:2:3", ""}
 
